@@ -1,4 +1,5 @@
 import AsyncVerif.Proofs.GroupBy
+import AsyncVerif.Proofs.GroupByRuns
 /-!
 # C16 — groupby matches itertools.groupby under every pattern of consuming groups
 
@@ -36,5 +37,30 @@ theorem C16_closed_group_stops (s : St) (g : Nat) : (grpNext (grpClose s g) g).2
 example : run stepI (init [(1,0),(2,0),(3,1),(4,0)])
     [.adv, .grpNext 0, .adv, .grpNext 0, .grpNext 1, .adv, .grpNext 2, .grpNext 2, .adv]
   = [.key 0 0, .item 1, .key 1 1, .stop, .item 3, .key 0 2, .item 4, .stop, .stop] := by decide
+
+/-- Against the readable specification `runs items` (the maximal runs of equal keys), draining consumer:
+    for EVERY input, advancing the groupby and draining each group before the next advance yields,
+    run by run, the run's key with a fresh handle, exactly the run's items in order, and a stop;
+    after the last run the groupby stops.  (asyncstdlib's machine; CPython's agrees by `C16_refines`.) -/
+theorem C16_full_consumption (items : List (Val × Key)) :
+    run stepI (init items) (fullOps 0 (runs items)) = fullOuts 0 (runs items) :=
+  full_consumption items
+
+/-- The same for CPython's algorithm: the specification `runs` describes itertools.groupby too. -/
+theorem C16_full_consumption_cpython (items : List (Val × Key)) :
+    run stepS (init items) (fullOps 0 (runs items)) = fullOuts 0 (runs items) := by
+  rw [← C16_refines]; exact full_consumption items
+
+/-- Keys-only consumer: advancing only the groupby yields the key of every maximal run, in order,
+    each with a fresh group handle, then stops; skipped groups are consumed silently. -/
+theorem C16_keys_only (items : List (Val × Key)) :
+    run stepI (init items) (List.replicate ((runs items).length + 1) .adv) = keyOuts 0 (runs items) :=
+  keys_only items
+
+/-! Non-vacuity: the specification and both consumers on a concrete stream. -/
+example : runs [(1,0),(2,0),(3,1),(4,0)] = [(0,[1,2]),(1,[3]),(0,[4])] := by decide
+example : fullOuts 0 (runs [(1,0),(2,0),(3,1)]) =
+    [.key 0 0, .item 1, .item 2, .stop, .key 1 1, .item 3, .stop, .stop] := by decide
+example : keyOuts 0 (runs [(1,0),(2,0),(3,1),(4,0)]) = [.key 0 0, .key 1 1, .key 0 2, .stop] := by decide
 
 end AsyncVerif.GroupBy
